@@ -58,7 +58,7 @@ def replay(ctx, res, name, engine="pango", stride=1):
     recs = [l for l in open(rec)]
     rejected = 0
     if recs:
-        tres = ctx.tlc("TableGridTrace", "TableGridTrace.cfg", workers=16, env={"TRACE_FILE": rec}, timeout=3000, heap_gb=12)
+        tres = ctx.tlc_trace("TableGridTrace", "TableGridTrace.cfg", rec, workers=16, timeout=3000, heap_gb=12)
         if tres.distinct != len(recs):
             raise MachineryError("TLC validated %d of %d tables" % (tres.distinct, len(recs)))
         txt = open(tres.out_path, errors="replace").read()
